@@ -37,31 +37,29 @@ def digits : List UInt8 → List UInt8
   | [] => []
 
 /-- a JSON number at the head; returns the rest -/
-def number (bs : List UInt8) : Option (List UInt8) :=
-  let bs := match bs with | 0x2d :: r => r | r => r
-  let afterInt : Option (List UInt8) := match bs with
-    | 0x30 :: r => some r
-    | b :: r => if isDigit b then some (digits r) else none
-    | [] => none
-  match afterInt with
-  | none => none
-  | some r =>
-    let afterFrac : Option (List UInt8) := match r with
-      | 0x2e :: d :: r' => if isDigit d then some (digits r') else none
-      | 0x2e :: [] => none
-      | r => some r
-    match afterFrac with
+def number (bs0 : List UInt8) : Option (List UInt8) :=
+  let bs := if bs0.head? = some 0x2d then bs0.tail else bs0
+  match bs with
+  | [] => none
+  | b :: r =>
+    if !isDigit b then none else
+    let r1 := if b = 0x30 then r else digits r
+    let r2? : Option (List UInt8) :=
+      if r1.head? = some 0x2e then
+        match r1.tail with
+        | d :: r' => if isDigit d then some (digits r') else none
+        | [] => none
+      else some r1
+    match r2? with
     | none => none
-    | some r =>
-      match r with
-      | e :: r' =>
-        if e == 0x65 || e == 0x45 then
-          let r'' := match r' with | s :: t => if s == 0x2b || s == 0x2d then t else s :: t | [] => []
-          match r'' with
-          | d :: t => if isDigit d then some (digits t) else none
-          | [] => none
-        else some r
-      | [] => some []
+    | some r2 =>
+      if r2.head? = some 0x65 ∨ r2.head? = some 0x45 then
+        let r3 := r2.tail
+        let r4 := if r3.head? = some 0x2b ∨ r3.head? = some 0x2d then r3.tail else r3
+        match r4 with
+        | d :: t => if isDigit d then some (digits t) else none
+        | [] => none
+      else some r2
 
 def lit (w : List UInt8) (bs : List UInt8) : Option (List UInt8) :=
   if bs.take w.length == w then some (bs.drop w.length) else none
@@ -72,40 +70,43 @@ def value : Nat → List UInt8 → Option (List UInt8)
   | 0, _ => none
   | fuel + 1, bs =>
     match skipWs bs with
-    | 0x22 :: rest => strBody rest
-    | 0x7b :: rest =>
-      match skipWs rest with
-      | 0x7d :: r => some r
-      | r => members fuel r
-    | 0x5b :: rest =>
-      match skipWs rest with
-      | 0x5d :: r => some r
-      | r => elements fuel r
-    | 0x74 :: rest => lit [0x72, 0x75, 0x65] rest
-    | 0x66 :: rest => lit [0x61, 0x6c, 0x73, 0x65] rest
-    | 0x6e :: rest => lit [0x75, 0x6c, 0x6c] rest
-    | b :: rest => if b == 0x2d || isDigit b then number (b :: rest) else none
     | [] => none
+    | b :: rest =>
+      if b = 0x22 then strBody rest
+      else if b = 0x7b then
+        (match skipWs rest with
+         | [] => none
+         | c :: r => if c = 0x7d then some r else members fuel (c :: r))
+      else if b = 0x5b then
+        (match skipWs rest with
+         | [] => none
+         | c :: r => if c = 0x5d then some r else elements fuel (c :: r))
+      else if b = 0x74 then lit [0x72, 0x75, 0x65] rest
+      else if b = 0x66 then lit [0x61, 0x6c, 0x73, 0x65] rest
+      else if b = 0x6e then lit [0x75, 0x6c, 0x6c] rest
+      else if b = 0x2d ∨ isDigit b then number (b :: rest)
+      else none
 /-- `"key" : value (, "key" : value)* }` -/
 def members : Nat → List UInt8 → Option (List UInt8)
   | 0, _ => none
   | fuel + 1, bs =>
     match skipWs bs with
-    | 0x22 :: rest =>
+    | [] => none
+    | b :: rest =>
+      if b ≠ 0x22 then none else
       match strBody rest with
       | none => none
       | some r =>
         match skipWs r with
-        | 0x3a :: r' =>
+        | [] => none
+        | c :: r' =>
+          if c ≠ 0x3a then none else
           match value fuel r' with
           | none => none
           | some r'' =>
             match skipWs r'' with
-            | 0x2c :: t => members fuel t
-            | 0x7d :: t => some t
-            | _ => none
-        | _ => none
-    | _ => none
+            | [] => none
+            | d :: t => if d = 0x2c then members fuel t else if d = 0x7d then some t else none
 /-- `value (, value)* ]` -/
 def elements : Nat → List UInt8 → Option (List UInt8)
   | 0, _ => none
@@ -114,9 +115,8 @@ def elements : Nat → List UInt8 → Option (List UInt8)
     | none => none
     | some r =>
       match skipWs r with
-      | 0x2c :: t => elements fuel t
-      | 0x5d :: t => some t
-      | _ => none
+      | [] => none
+      | d :: t => if d = 0x2c then elements fuel t else if d = 0x5d then some t else none
 end
 
 /-- json.Valid -/
